@@ -254,6 +254,7 @@ def step (st : DState) (line : String) : DState × String :=
   match toks with
   | [] => (st, "")
   | ["reset"] => ({}, "ok")
+  | ["reset", _] => ({}, "ok")      -- `reset byvalue`: some vertices are instances of classes pickled by value (C10); same model
   | ["adjdict", cls, body] =>
     match LCls.ofString? cls with
     | none => bad
